@@ -21,6 +21,8 @@ var companionPatches = []string{
 	`[{"op":"replace","path":"","value":null},{"op":"add","path":"/-","value":1}]`,
 	`[{"op":"move","from":"/a","path":"/b"}]`,
 	`[{"op":"test","path":""}]`,
+	`[{"op":"replace","path":"","value":null},{"op":"add","path":"/0/a","value":1}]`,
+	`[{"op":"replace","path":"","value":null},{"op":"test","path":"","value":null},{"op":"copy","from":"","path":"/a/b"}]`,
 }
 
 func firstNonWS(b []byte) (byte, bool) {
